@@ -50,6 +50,7 @@ type Outcome struct {
 	Cost       int
 	Crash      string
 	Hash       uint64
+	Sig        string // set by Post: what the oracle observed (for counting distinct outcomes)
 }
 
 func (o *Outcome) Fail(oracle, keyDetail, msg string) {
@@ -177,8 +178,8 @@ func (e *Explorer) Run() {
 		it := stack[len(stack)-1]
 		stack = stack[:len(stack)-1]
 		x := e.runOnce(it.prefix, false)
-		if !(e.Shards > 1 && e.Shard != 0 && len(it.prefix) == 0) {
-			e.account(x) // the default execution is accounted by shard 0 only
+		if !(e.Shards > 1 && e.Shard != 0 && it.depth <= 1) {
+			e.account(x) // the root and its children are run by every shard, accounted by shard 0 only
 		}
 		for i := len(x.points) - 1; i >= len(it.prefix); i-- {
 			p := x.points[i]
@@ -193,8 +194,9 @@ func (e *Explorer) Run() {
 				np := make([]int, i+1)
 				copy(np, x.choices[:i])
 				np[i] = alt
-				if e.Shards > 1 && it.depth == 0 {
-					// the first deviation from the default execution decides the shard
+				if e.Shards > 1 && it.depth == 1 {
+					// subtrees below the second decision are distributed over the shards
+					// (every shard runs the root and its children; they are accounted once)
 					if prefixShard(np, e.Shards) != e.Shard {
 						continue
 					}
@@ -250,7 +252,12 @@ func (e *Explorer) account(x *exec) {
 		}
 		sig += " VIOL " + strings.Join(ks, ",")
 	}
-	sig += fmt.Sprintf(" log#%x", hashLog(o.Log)&0xffffff)
+	if o.Sig != "" {
+		sig += " " + o.Sig
+	}
+	if len(o.Log) > 0 {
+		sig += fmt.Sprintf(" log#%x", hashLog(o.Log)&0xffffff)
+	}
 	if len(st.Outcomes) < 4096 {
 		st.Outcomes[sig]++
 	}
